@@ -463,8 +463,19 @@ def _hist_run(K, hist, flags, ax, profile):
     for name, seed, idov in hist:
         k = by[name]
         node = gen_obj(k, seed)
-        if idov is not None and node.attributes.get("id") is not None:
+        if idov is not None and k["dir"] == "recv" and node.attributes.get("id") is not None:
             node.attributes["id"] = idov
+        if k["dir"] == "send":
+            # an entity pushed at the top of the SAME stack (mixed histories): node here is the entity
+            entity = node
+            ser = R.canon(entity.toProtocolTreeNode())
+            feats = R.entity_features(entity)
+            ups, outs, bottom, exc = rig.send(entity)
+            obs = R.norm_actions(R.abstract_obs(ups, outs, exc, ser))
+            out.append((k, entity.toProtocolTreeNode(), feats, obs,
+                        {"ups": ups, "outs": outs, "downs": outs, "bottom": bottom, "exc": exc, "ser": ser,
+                         "entity": entity}))
+            continue
         feats = R.node_features(node)
         ups, downs, exc = rig.recv(node)
         obs = R.norm_actions(R.abstract_obs(ups, downs, exc))
@@ -476,10 +487,12 @@ def _hist_problems(model, steps, flags, ax, judge_answers):
     """-> (index of first bad step, kind of problem, details) or None"""
     res = None
     if model is not None:
-        res = model.call("run_trace", model_arg(flags, ax, [[0, st[2]] for st in steps]))
+        res = model.call("run_trace", model_arg(flags, ax, [[1 if st[0]["dir"] == "send" else 0, st[2]]
+                                                            for st in steps]))
     for i, (k, node, feats, obs, raw) in enumerate(steps):
         if k["domain"]:
-            orc = [o for o in oracle_recv(k, flags, raw) if judge_answers or o[0] != "oracle:answers"]
+            orc = oracle_send(k, flags, ax, raw) if k["dir"] == "send" else oracle_recv(k, flags, raw)
+            orc = [o for o in orc if judge_answers or o[0] != "oracle:answers"]
             orc = [o for o in orc if o[2] is None]
             if orc:
                 return i, orc[0][0], "; ".join(o[1] for o in orc)
@@ -491,12 +504,26 @@ def _hist_problems(model, steps, flags, ax, judge_answers):
     return None
 
 
-def history_sweep(ctx, model, select, nhist, stats, judge_answers, length=(6, 16)):
+def history_sweep(ctx, model, select, nhist, stats, judge_answers, length=(6, 16), mixed=False):
     """sequences of incoming stanzas through ONE stack instance, with ids reused and whole stanzas repeated: the
-    duties are per stanza whatever was received before (C07_*_history); compared step by step with run_trace"""
+    duties are per stanza whatever was received before (C07_*_history); compared step by step with run_trace.
+    mixed: entities sent from the top are interleaved with the incoming stanzas on the same stack, in both orders
+    (a tag first seen incoming and then sent, first sent and then incoming): routing of a stanza never depends on
+    what travelled in the other direction before"""
     K = kinds()
     names = [k["name"] for k in K.KINDS if select(k) and k["dir"] == "recv" and k["domain"]
              and not k["name"].startswith("recv.auth") and "stream" not in k["name"]]
+    send_names = [k["name"] for k in K.KINDS if select(k) and k["dir"] == "send" and k["domain"]] if mixed else []
+    by_name = K.by_name()
+
+    def tag_of(name):
+        return name.split(".")[1]
+    recv_by_tag, send_by_tag = {}, {}
+    for nm in names:
+        recv_by_tag.setdefault(tag_of(nm), []).append(nm)
+    for nm in send_names:
+        send_by_tag.setdefault(tag_of(nm), []).append(nm)
+    both_tags = sorted(set(recv_by_tag) & set(send_by_tag))
     stats.setdefault("histories", 0)
     stats.setdefault("history_steps", 0)
     stats.setdefault("history_id_reuses", 0)
@@ -514,15 +541,27 @@ def history_sweep(ctx, model, select, nhist, stats, judge_answers, length=(6, 16
             if hist and x < 0.2:
                 hist.append(r.choice(hist))                         # the very same stanza again
                 stats["history_id_reuses"] += 1
+            elif mixed and both_tags and x < 0.6:
+                # the same tag in both directions, first direction chosen at random
+                t = r.choice(both_tags)
+                pair = [(r.choice(recv_by_tag[t]), r.getrandbits(48), None),
+                        (r.choice(send_by_tag[t]), r.getrandbits(48), None)]
+                if r.random() < .5:
+                    pair.reverse()
+                hist.extend(pair)
+                stats["history_direction_pairs"] = stats.get("history_direction_pairs", 0) + 1
+            elif mixed and x < 0.8:
+                hist.append((r.choice(send_names), r.getrandbits(48), None))
             else:
                 name = r.choice(names)
-                idov = r.choice(ids) if (ids and x < 0.55) else None   # another stanza carrying an id seen before
+                idov = r.choice(ids) if (ids and x < 0.55 and not mixed) else None   # another stanza carrying an id seen before
                 if idov is not None:
                     stats["history_id_reuses"] += 1
                 hist.append((name, r.getrandbits(48), idov))
-            k0 = K.by_name()[hist[-1][0]]
-            node = gen_obj(k0, hist[-1][1])
-            ids.append(hist[-1][2] or node.attributes.get("id") or "x")
+            k0 = by_name[hist[-1][0]]
+            if k0["dir"] == "recv":
+                node = gen_obj(k0, hist[-1][1])
+                ids.append(hist[-1][2] or node.attributes.get("id") or "x")
         stats["profiles"] = stats.get("profiles", 0) + 1
         profile = R.make_profile(ctx.scratch, stats["profiles"])
         try:
